@@ -8,7 +8,7 @@ LEAN_MODULES = ["Econf.Props.C17"]
 THEOREMS = ["Econf.C17_line", "Econf.C17_comment_block", "Econf.C17_comment_block_first", "Econf.C17_trailing", "Econf.C17_values_plain", "Econf.C17_values_quoted", "Econf.C17_path_single", "Econf.C17_path_merged", "Econf.C02_parse_render"]
 RULE = ("conventional documents with comment blocks, trailing comments and multi-line values over-represented, read by absolute name, "
         "by relative names (after chdir) and through a symbolic link; every key's extended value and the path query are compared with "
-        "the document; a merged result must report the empty path; distinct by (content, sets, way of naming the file)")
+        "the document; a merged result (econf_mergeFiles, and a layered read of the document plus one or two drop-ins, some without entries) must report the empty path; distinct by (content, sets, way of naming the file)")
 PATH = b"/etc/app/doc.conf"
 SHRINK = False
 WAYS = [("abs", None, PATH), ("rel_same_dir", b"/etc/app", b"doc.conf"), ("rel_dot", b"/etc/app", b"./doc.conf"),
@@ -45,6 +45,18 @@ def make(rng, sid, hist):
     s.add("M", 2, 0, 1)
     s.add("PATH", 2)
     s.add("FREE", 2); s.add("FREE", 1); s.add("FREE", 0)
+    # the same document as the main file of a layered read with one or two drop-ins, some of them without entries
+    # (empty, switched off by commenting out, blank lines): the result is merged from several files, its path is empty
+    s.file(b"/usr/etc/lay.conf", content)
+    nd = rng.randint(1, 2)
+    bodies = [rng.choice([b"", b"# disabled\n# k=1\n", b"\n\n", b"zz=1\n", b"[only]\n"]) for _ in range(nd)]
+    for i, b in enumerate(bodies):
+        s.file(b"/etc/lay.conf.d/%d0-x.conf" % (i + 1), b)
+    if delim not in (b"", b"\n"):
+        s.add("RD", 3, h(b"/usr/etc"), h(b"/etc"), h(b"lay"), h(b"conf"), h(delim), h(comment))
+        s.add("PATH", 3)
+        s.add("FREE", 3)
+        s.meta["layered"] = bodies
     return s
 
 
@@ -64,10 +76,14 @@ def oracle(s, lines):
     if msg:
         return msg
     paths = [l for l in lines if l.startswith("path ")]
-    if len(paths) != 2 or paths[0] != "path " + h(PATH):
+    if len(paths) < 2 or paths[0] != "path " + h(PATH):
         return "path query %r, expected %r (file named %s)" % (paths[:1], PATH, s.meta["way"])
     if paths[1] != "path h":
         return "a merged result reports the path %r" % paths[1]
+    if "layered" in s.meta:
+        rd = [l for l in lines if l.startswith("rd ")]
+        if rd and rd[0] == "rd E0 obj" and (len(paths) != 3 or paths[2] != "path h"):
+            return "the result of a layered read of %d files (drop-ins %r) reports the path %r" % (1 + len(s.meta["layered"]), s.meta["layered"], paths[2:3])
     return None
 
 
